@@ -3,6 +3,7 @@
 package run
 
 import (
+	"bytes"
 	"encoding/binary"
 	"encoding/json"
 	"fmt"
@@ -57,6 +58,7 @@ type Acc struct {
 
 	distinct map[uint64]struct{}
 	journal  *os.File
+	sidecar  *os.File // violations are appended here as they happen: they survive a worker that is killed later
 	jobIdx   int
 	job      Job
 	caseIdx  int
@@ -155,10 +157,32 @@ func (a *Acc) Violate(kind, sig string, detail any) {
 		fmt.Printf("violation kind=%s sig=%s\n%s\n", kind, sig, b)
 	}
 	if len(a.Violations) < 12 {
-		a.Violations = append(a.Violations, Violation{
+		v := Violation{
 			Property: a.Property, Kind: kind, Sig: sig, Job: a.job, JobIdx: a.jobIdx, Case: a.caseIdx, Detail: detail,
-		})
+		}
+		a.Violations = append(a.Violations, v)
+		if a.sidecar != nil {
+			if b, err := json.Marshal(v); err == nil {
+				a.sidecar.Write(append(b, '\n'))
+			}
+		}
 	}
+}
+
+// LoadSidecar reads the violations a worker recorded before it died.
+func LoadSidecar(path string) []Violation {
+	b, err := os.ReadFile(path)
+	if err != nil {
+		return nil
+	}
+	var out []Violation
+	for _, line := range bytes.Split(b, []byte("\n")) {
+		var v Violation
+		if len(line) > 0 && json.Unmarshal(line, &v) == nil && v.Kind != "" {
+			out = append(out, v)
+		}
+	}
+	return out
 }
 
 func (a *Acc) Note(format string, args ...any) {
